@@ -21,6 +21,12 @@ Driver family `explorer` (C19).  Case lines (a sequence shares its `<cid>`; `gsn
 * `push <cid> v=<canon> rec=<tbl> hit=0|1 room=0|1 dial=0|1 chain=<log> res=<class> enq=0|1 qsame=0|1 getkey=0|1 stored=0|1
         setkey=0|1 sent=<sets> cur= list= named=<keys>`                      `Push` (state lines come from a verif-only accessor)
 
+Optional fields: `gsnew … boot=1` - the list argument is what the real `GetGuardianSetsFromChain(0)` returned from an honest chain
+(main.go's start-up), so the sequence is one the callers produce whatever the list looks like; `gsupd … src=fetch` - the input is what
+the real `GetGuardianSetsFromChain(current+1)` returned (the ticker's body); `gsget`/`push … cur0=<int>` - the lookup read
+`current = cur0`, was held at the chain while other lookups / fetches completed, and its batch arrived in the state of the previous
+line (`getGuardianSetStale` / `pushStale`: overlapping and repeated fetches).
+
 set = `idx:keys`, keys = `nil` | `-` | `hex,hex`; sets = `-` | `set;set`; log = `-` | entries `c:<n>`, `c:err`, `<i>:<keys>`, `<i>:err`.
 -/
 namespace Whv.Driver.ExplorerFam
@@ -115,6 +121,9 @@ structure St where
   nInvalid : Nat := 0
   nVfyOk : Nat := 0
   nVfyRej : Nat := 0
+  nBoot : Nat := 0
+  nStale : Nat := 0
+  nFar : Nat := 0
 
 def showState (g : GS) : String := s!"cur={g.cur} idx=[{showIdx g.list}]"
 
@@ -175,7 +184,9 @@ def step (st : St) (line : String) : St × List String :=
       match newGuardianSets arg, res with
       | none, "panic" => ({ st with g := ⟨-1, []⟩, realistic := false, nPanic := st.nPanic + 1 }, [s!"ok {id}"])
       | some (g, c), "ok" =>
-        let st := { st with g := ig, realistic := invB ig, nReal := st.nReal + (if invB ig then 1 else 0) }
+        let boot := kv rest "boot" == some "1"
+        let st := { st with g := ig, realistic := invB ig || boot, nReal := st.nReal + (if invB ig || boot then 1 else 0),
+                            nBoot := st.nBoot + (if boot then 1 else 0) }
         if sent ≠ [c] then (st, [s!"diff {id} NewGuardianSets sent model={showSet c} impl={showSets sent}"])
         else match stateDiff g ig with
           | some d => (st, [s!"diff {id} NewGuardianSets {d}"])
@@ -185,7 +196,7 @@ def step (st : St) (line : String) : St × List String :=
   | "gsupd" :: id :: rest =>
     match kv rest "in" >>= parseSets, kv rest "res", parseState rest with
     | some inp, some res, some ig =>
-      let realistic := st.realistic && inputOkB st.g inp
+      let realistic := st.realistic && (inputOkB st.g inp || kv rest "src" == some "fetch")
       let (mg, mr) := update st.g inp
       let st' := { st with g := ig, realistic := realistic, n := st.n + 1 }
       let mrs := if mr = .err then "err" else "nil"
@@ -204,9 +215,11 @@ def step (st : St) (line : String) : St × List String :=
     match kvInt rest "idx", b01 (kv rest "dial"), kv rest "chain" >>= parseLog, kv rest "res", kv rest "sent" >>= parseSets, parseState rest with
     | some idx, some dial, some log, some res, some sent, some ig =>
       let chain := chainOf log
-      let o := getGuardianSet st.g idx dial chain
+      let cur0 := (kvInt rest "cur0").getD st.g.cur
+      let o := getGuardianSetStale st.g cur0 idx dial chain
       let iset := kv rest "set" >>= parseSet
-      let st' := { st with g := ig, n := st.n + 1 }
+      let st' := { st with g := ig, n := st.n + 1, nStale := st.nStale + (if (kvInt rest "cur0").isSome then 1 else 0),
+                           nFar := st.nFar + (if idx > st.g.cur + 8 then 1 else 0) }
       -- Spec: "the guardian set it returns for index i is always the set with index i"
       if st.realistic && res = "panic" then (st', [s!"spec {id} get-panic GetGuardianSet({idx}) panicked in {showState st.g}"])
       else if st.realistic && res = "ok" && (iset.map fun s => (s.index : Int)) ≠ some idx then
@@ -329,8 +342,10 @@ def step (st : St) (line : String) : St × List String :=
     | some v, some tbl, some hit, some room, some dial, some log, some res, some enq, some stored, some sent, some ig, some named =>
       let recover := recoverOf tbl
       let chain := chainOf log
-      let o := push st.g v recover dial chain hit room
-      let st' := { st with g := ig, n := st.n + 1 }
+      let cur0 := (kvInt rest "cur0").getD st.g.cur
+      let o := pushStale st.g cur0 v recover dial chain hit room
+      let st' := { st with g := ig, n := st.n + 1, nStale := st.nStale + (if (kvInt rest "cur0").isSome then 1 else 0),
+                           nFar := st.nFar + (if (v.gsIndex : Int) > st.g.cur + 8 then 1 else 0) }
       let qsame := b01 (kv rest "qsame") == some true
       let keysOk := b01 (kv rest "getkey") != some false && b01 (kv rest "setkey") != some false
       -- Spec, on the implementation's own behaviour
@@ -370,7 +385,8 @@ def fin (st : St) : List String :=
   [s!"stat lines {st.n}", s!"stat realistic_sequences {st.nReal}", s!"stat get_fast {st.nGetFast}", s!"stat get_fetch {st.nGetFetch}",
    s!"stat get_err {st.nGetErr}", s!"stat panics_agreed {st.nPanic}", s!"stat upd_append {st.nUpdAppend}", s!"stat upd_noop {st.nUpdNoop}",
    s!"stat upd_err {st.nUpdErr}", s!"stat push_queued {st.nQueued}", s!"stat push_dup {st.nDup}", s!"stat push_full {st.nFull}",
-   s!"stat push_invalid {st.nInvalid}", s!"stat verify_nil {st.nVfyOk}", s!"stat verify_rejected {st.nVfyRej}"]
+   s!"stat push_invalid {st.nInvalid}", s!"stat verify_nil {st.nVfyOk}", s!"stat verify_rejected {st.nVfyRej}",
+   s!"stat boot_sequences {st.nBoot}", s!"stat overtaken_lookups {st.nStale}", s!"stat far_ahead_lookups {st.nFar}"]
 
 def run (h : IO.FS.Stream) : IO Unit := loop h ({} : St) step fin
 
